@@ -249,6 +249,8 @@ def rule_P4(ctx) -> None:
         m = rx.match(f".google.protobuf.{cname}")
         if m and f"TYPE_{m.group(1).upper()}" in init.consts:
             accepted.add(cname)
+    if any(isinstance(n, ast.Compare) and isinstance(n.ops[0], ast.In) and ast.unparse(n.comparators[0]) == "WRAPPER_TYPES" for n in ast.walk(fw)):
+        accepted &= wt      # field_wraps additionally requires membership in WRAPPER_TYPES
     # table 3: _get_wrapper
     gw = init.table_function("_get_wrapper")
     gwc = {(ast.unparse(v) if isinstance(v, ast.AST) else str(v)): k for k, v in gw.items()}
